@@ -44,7 +44,7 @@ def run(rep):
     rep.assumptions += ["the +-10 s covariance of all seven clock times depends on the real ephemeris evaluated d hours apart and is outside the claim"]
     results = base.run_obligations(rep, [(jd.jd_gmt_shift, None), (jd.jd_formula, (1583, 9999)), (wiring.prayer_times_dt_wiring, False),
                                          (wiring.prayer_times_dt_wiring, True), (transit.ra_deltas, None), (transit.dhuhr_transit, None), (wiring.astro_day_wiring, None)])
-    if any(x["cands"] for x in results):
+    if any((x["cands"] or x["inconclusive"]) for x in results):
         found = {}
         for key, desc, case, obs in metamorphic():
             found.setdefault(key, []).append((desc, case, obs))
@@ -54,7 +54,7 @@ def run(rep):
             c01.confirm_jd(rep, results)
         if not found and not rep.violations:
             c01.confirm(rep, [x for x in results if "JulianDay" not in x["name"]])
-            if not rep.violations and not rep.inconclusive:
+            if not rep.violations and not rep.inconclusive and any(x["cands"] for x in results):
                 rep.inconclusive.append("solver counterexamples not reproduced natively")
     from . import policyprop as _pp
     _pp.purity_native(rep)
